@@ -2,8 +2,9 @@
    Map / Lookup return the values plain traversal would").  Model/Walk.v has no
    separate function for Parse (Map is interface_val on an object); the loop
    below is the Go loop of Object.Parse written over the modelled
-   NextElementBytes, in the style of walk_value's member loop.  It is defined
-   here, so it is NOT covered by the differential harness. *)
+   NextElementBytes, in the style of walk_value's member loop.  The loop itself
+   (obj_parse) lives in Model/Walk.v and is run against Object.Parse by the
+   harness (oracle op "find ... parse"). *)
 From SJ Require Import Model.Base Model.RefTables Spec.Json Spec.EditSpec Model.Tape
      Model.Iter Model.Walk Model.Edit Model.WF.
 From SJ Require Import Proofs.TapeBase Proofs.TapeSeg Proofs.TapeDen Proofs.TapePath
@@ -11,21 +12,6 @@ From SJ Require Import Proofs.TapeBase Proofs.TapeSeg Proofs.TapeDen Proofs.Tape
      Proofs.LookupBase Proofs.LookupFind Proofs.LookupTop.
 From Coq Require Import Lia ZifyBool ZifyN ZifyNat.
 Open Scope N_scope.
-
-(* Elements.Elements: (Name, Type, Iter) in order *)
-Fixpoint obj_parse_loop (k : nat) (pj : pjson) (ob : cont) (acc : list (bytes * N * iter))
-  : outcome (list (bytes * N * iter)) :=
-  match k with
-  | O => OutOfFuel
-  | S k' =>
-    do r <- next_element (cont_fuel ob) pj ob;
-    match r with
-    | (_, None) => Ok (rev acc)
-    | (ob', Some (name, el, ty)) => obj_parse_loop k' pj ob' ((name, ty, el) :: acc)
-    end
-  end.
-Definition obj_parse (pj : pjson) (o : cont) : outcome (list (bytes * N * iter)) :=
-  obj_parse_loop (cont_fuel o) pj o [].
 
 (* Elements.Lookup: dst.Index[name] = len(dst.Elements) is overwritten by a
    later element of the same name, so the LAST one is returned *)
